@@ -122,6 +122,40 @@ def step (ts : List String) : String :=
               obs fuel p' (acc ++ [fFs p'.matrix]) ts'
         | _ => acc
       " | ".intercalate (obs 64 Pipe0D.new [] rest)
+  | "ehist" :: n0 :: n1 :: n2 :: ops =>
+      -- emitter map-setter history on `EmitterState.new (n0,n1,n2)`: tokens `v|m <s0> <s1> <s2> <len> <len values>`;
+      -- prints one status per write, then `_voxel_map | voxel_map_mv | bins | mask getter`
+      let rec goE (fuel : Nat) (st : EmitterState) (acc : List String) : List String → EmitterState × List String
+        | k :: s0 :: s1 :: s2 :: len :: rest =>
+            match fuel with
+            | 0 => (st, acc)
+            | fuel + 1 =>
+              let vals := rest.take (pN len)
+              let op : MapOp := if k == "v" then .voxelMap (pN s0, pN s1, pN s2) (ints vals)
+                                else .mask (pN s0, pN s1, pN s2) (vals.map pB)
+              let r := st.apply op
+              goE fuel r.1 (acc ++ [fB r.2]) (rest.drop (pN len))
+        | _ => (st, acc)
+      let (fin, acc) := goE 64 (EmitterState.new (pN n0, pN n1, pN n2)) [] ops
+      let sh := fun (l : List Int) => " ".intercalate (l.map toString)
+      " ".intercalate acc ++ s!" | {sh fin.vmap} | {sh fin.mv} | " ++
+        (match fin.nbins with | none => "ValueError" | some b => toString b) ++ " | " ++
+        " ".intercalate ((maskOf fin.vmap).map fB)
+  | "pipe1d" :: px :: ps :: b :: nres :: rest =>
+      -- one observe of a fresh 1D pipeline (2D: flattened pixel index): `<pixel> <bins floats>` per task; prints all rows
+      let rec results1 : Nat → List String → List (Nat × List Float)
+        | 0, _ => []
+        | k + 1, p :: ts => let (fs, ts') := takeF (pN b) ts; (pN p, fs) :: results1 k ts'
+        | _, _ => []
+      let p := (Pipe1D.new : Pipe1D Float).observe (pN px) (pN ps) (pN b) (results1 (pN nres) rest)
+      " | ".intercalate (p.matrix.map fFs)
+  | "pixproc" :: kind :: b :: nsamp :: rest =>
+      -- pixel processor: `<sensitivity> <bins floats>` per add_sample; prints the packed matrix
+      let rec samples : Nat → List String → List (List Float × Float)
+        | 0, _ => []
+        | k + 1, s :: ts => let (fs, ts') := takeF (pN b) ts; (fs, pF s) :: samples k ts'
+        | _, _ => []
+      fFs (pixelProcess (kind == "power") (pN b) (samples (pN nsamp) rest))
   | ["fmod", x, p] => fF (fmodF (pF x) (pF p))
   | _ => "bad-op"
 
